@@ -526,6 +526,7 @@ class JobNameCalculator:
         self.__prefix = prefix
         self.__isolate = lambda name: False
         self.__packageName = {}
+        self.__referenceStep = {}
         self.__roots = []
 
     def addPackage(self, package):
@@ -579,6 +580,7 @@ class JobNameCalculator:
                     job = AbstractJob([sbxVariantId], parentJob.pkgs)
                     vidToJob[sbxVariantId] = job
                     vidToName[sbxVariantId] = pkgName
+                    self.__referenceStep[sbxVariantId] = step
                     name = pkgName if self.__isolate(pkgName) else pkg.getRecipe().getName()
                     nameToJobs.setdefault(name, []).append(job)
                 else:
@@ -667,6 +669,15 @@ class JobNameCalculator:
                     for vid in j.pkgs:
                         self.__packageName[vid] = "{}-{}".format(name, i+1)
 
+    def getReferenceStep(self, step):
+        """Get the package step whose dependencies were used by sanitize().
+
+        Packages with the same variant-id may still have dependencies that
+        live in different sandboxes. Only the dependencies of the first such
+        package are named and built.
+        """
+        return self.__referenceStep[getJenkinsVariantId(step)]
+
     def getJobDisplayName(self, step):
         if step.isPackageStep():
             vid = getJenkinsVariantId(step)
@@ -680,6 +691,9 @@ class JobNameCalculator:
 
 def _genJenkinsJobs(step, jobs, nameCalculator, upload, download, seenPackages, allVariantIds,
                     shortdescription):
+
+    if step.isPackageStep():
+        step = nameCalculator.getReferenceStep(step)
 
     if step.isPackageStep() and shortdescription:
         if getJenkinsVariantId(step) in allVariantIds:
